@@ -36,6 +36,7 @@ type HarnessReport struct {
 	KnownHits   []interp.Violation  `json:"known_hits"`
 	Problems    []string            `json:"problems"`
 	Samples     []map[string]string `json:"samples"`
+	PathSamples []PathSample        `json:"path_samples"`
 	Funcs       []string            `json:"funcs"`
 	WallS       float64             `json:"wall_s"`
 	Queries     int                 `json:"queries"`
@@ -47,6 +48,13 @@ type HarnessReport struct {
 	Truncated   bool                `json:"truncated"`
 	CacheHits   int                 `json:"cache_hits"`
 	EnumQueries int                 `json:"enum_queries"`
+}
+
+// PathSample is one completed, violation-free path with a model of its path
+// condition: replayed natively, it must reach the same labels and fail nothing.
+type PathSample struct {
+	Inputs  map[string]string `json:"inputs"`
+	Reached []string          `json:"reached"`
 }
 
 type Report struct {
@@ -259,6 +267,12 @@ func runHarness(ws []*interp.Worker, name string, maxPaths int) *HarnessReport {
 	funcs := map[string]bool{}
 	violSeen := map[string]int{}
 	violSeen2 := map[string]int{}
+	okPaths := 0
+	maxSamples := 6
+	if v := os.Getenv("GOSYM_SAMPLES"); v != "" {
+		fmt.Sscanf(v, "%d", &maxSamples)
+	}
+	sampleStride := 37
 	problemSeen := map[string]bool{}
 	q0, s0, u0, k0 := 0, 0, 0, 0
 	var d0 time.Duration
@@ -358,6 +372,23 @@ func runHarness(ws []*interp.Worker, name string, maxPaths int) *HarnessReport {
 				}
 				if len(hr.Samples) < 5 && res.Status == "ok" && len(res.Sample) > 0 {
 					hr.Samples = append(hr.Samples, res.Sample)
+				}
+				if res.Status == "ok" && len(res.Violations) == 0 && len(res.KnownHits) == 0 && res.Sample != nil {
+					// reservoir-style spread: keep every k-th completed path
+					okPaths++
+					if len(hr.PathSamples) < maxSamples || okPaths%sampleStride == 0 {
+						var reached []string
+						for k := range res.Reached {
+							reached = append(reached, k)
+						}
+						sort.Strings(reached)
+						ps := PathSample{Inputs: res.Sample, Reached: reached}
+						if len(hr.PathSamples) < maxSamples {
+							hr.PathSamples = append(hr.PathSamples, ps)
+						} else {
+							hr.PathSamples[(okPaths/sampleStride)%maxSamples] = ps
+						}
+					}
 				}
 				if len(hr.Observes) < 5 && len(res.Observes) > 0 {
 					hr.Observes = append(hr.Observes, res.Observes)
